@@ -43,7 +43,8 @@ Definition pre (w : world) (o : opts) (st : state) (names0 : list str) (kw : kwa
              | (force', None) => (force', sp, spvar)
              end
         else (force, sp, spvar) in
-      Some (mkHolder names allow sp spvar force nofb)
+      Some (mkHolder (map (ident (k_static kw)) names) allow sp spvar force nofb
+                     (match sp with Some s => eff_dl o s (k_static kw) (k_deflib kw) | None => o_deflib o end))
   end.
 
 Lemma lookup_pre w o st names0 kw :
@@ -94,7 +95,7 @@ Qed.
 Fixpoint first_sys (w : world) (ns : list str) (wanted : list str) : option (str * str) :=
   match ns with
   | [] => None
-  | n :: r => match assoc n (w_sys w) with
+  | n :: r => match assoc (base n) (w_sys w) with
               | Some v => if sys_check wanted v then Some (n, v) else first_sys w r wanted
               | None => first_sys w r wanted
               end
@@ -114,7 +115,7 @@ Proof.
   intros Hr. induction ns as [|n r IH]; intros st; [reflexivity|].
   cbn [map app]. rewrite try_cands_cons. cbn [run_cand first_sys].
   rewrite (is_nil_app_r _ _ Hr), andb_false_r.
-  destruct (assoc n (w_sys w)) as [v|]; [destruct (sys_check wanted v); [reflexivity|]|]; apply IH.
+  destruct (assoc (base n) (w_sys w)) as [v|]; [destruct (sys_check wanted v); [reflexivity|]|]; apply IH.
 Qed.
 
 Lemma sys_phase_last w h wanted required : forall ns st,
@@ -128,10 +129,10 @@ Proof.
   cbn [map]. rewrite try_cands_cons. cbn [run_cand first_sys].
   destruct r as [|n2 r2].
   - cbn [map is_nil first_sys]. rewrite andb_true_r.
-    destruct (assoc n (w_sys w)) as [v|]; [destruct (sys_check wanted v); [reflexivity|]|];
+    destruct (assoc (base n) (w_sys w)) as [v|]; [destruct (sys_check wanted v); [reflexivity|]|];
       destruct required; reflexivity.
   - cbn [map is_nil]. rewrite andb_false_r.
-    destruct (assoc n (w_sys w)) as [v|]; [destruct (sys_check wanted v); [reflexivity|]|];
+    destruct (assoc (base n) (w_sys w)) as [v|]; [destruct (sys_check wanted v); [reflexivity|]|];
       (rewrite IH; destruct (first_sys w (n2 :: r2) wanted) as [[? ?]|]; reflexivity).
 Qed.
 
@@ -153,7 +154,7 @@ Proof. intros Hg. unfold get_subproject_dep. rewrite Hg. reflexivity. Qed.
 (* the last candidate: configure the fallback subproject *)
 Definition sub_phase w (h : holder) wanted required s (st : state) : outcome * state :=
   if negb (h_force h) && h_nofb h then (fail required, st)
-  else match do_subproject w st s required with
+  else match do_subproject w st s required (h_dl h) with
        | Err => (OErr, st)
        | Ok st' => match get_subproject_dep w h st' s (h_spvar h) wanted with
                    | Some d => finA h required d st'
@@ -166,7 +167,7 @@ Lemma sub_phase_eq w h wanted required s st :
 Proof.
   cbn [try_cands run_cand is_nil]. rewrite andb_true_r. unfold sub_phase.
   destruct (negb (h_force h) && h_nofb h); [destruct required; reflexivity|].
-  destruct (do_subproject w st s required) as [st'|]; [|reflexivity].
+  destruct (do_subproject w st s required (h_dl h)) as [st'|]; [|reflexivity].
   destruct (get_subproject_dep w h st' s (h_spvar h) wanted) as [[|k v]|]; try reflexivity.
   destruct required; reflexivity.
 Qed.
@@ -322,10 +323,10 @@ Proof.
 Qed.
 
 Lemma first_sys_spec w wanted : forall ns n v,
-  first_sys w ns wanted = Some (n, v) -> assoc n (w_sys w) = Some v /\ sys_check wanted v = true.
+  first_sys w ns wanted = Some (n, v) -> assoc (base n) (w_sys w) = Some v /\ sys_check wanted v = true.
 Proof.
   induction ns as [|a r IH]; intros n v; cbn; [discriminate|].
-  destruct (assoc a (w_sys w)) as [x|] eqn:E; [destruct (sys_check wanted x) eqn:Es|]; try apply IH.
+  destruct (assoc (base a) (w_sys w)) as [x|] eqn:E; [destruct (sys_check wanted x) eqn:Es|]; try apply IH.
   intros H; inversion H; subst. auto.
 Qed.
 
@@ -365,38 +366,42 @@ Lemma pre_mono w o st st' names kw h :
 Proof.
   intros Hm. unfold pre.
   destruct (negb (names_ok [] (filter (fun n : list char => negb (is_nil n)) names))); [discriminate|].
-  assert (G : forall allow sp spvar force0 nofb,
+  set (ns := filter (fun n : list char => negb (is_nil n)) names).
+  assert (G : forall allow sp spvar force0 (mk : bool -> option str -> option str -> holder),
+    (forall f a b, h_spname (mk f a b) = a) ->
     (let '(force, sp', spvar') :=
        if negb (truthy sp) && negb (match allow with Some false => true | _ => false end)
-       then match implicit_provider w o st allow (k_required kw) force0 (filter (fun n : list char => negb (is_nil n)) names) with
+       then match implicit_provider w o st allow (k_required kw) force0 ns with
             | (force', Some (s, v)) => (force', Some s, v)
             | (force', None) => (force', sp, spvar)
             end
        else (force0, sp, spvar) in
-     Some (mkHolder (filter (fun n : list char => negb (is_nil n)) names) allow sp' spvar' force nofb)) = Some h ->
+     Some (mk force sp' spvar')) = Some h ->
     truthy (h_spname h) = true ->
     (let '(force, sp', spvar') :=
        if negb (truthy sp) && negb (match allow with Some false => true | _ => false end)
-       then match implicit_provider w o st' allow (k_required kw) force0 (filter (fun n : list char => negb (is_nil n)) names) with
+       then match implicit_provider w o st' allow (k_required kw) force0 ns with
             | (force', Some (s, v)) => (force', Some s, v)
             | (force', None) => (force', sp, spvar)
             end
        else (force0, sp, spvar) in
-     Some (mkHolder (filter (fun n : list char => negb (is_nil n)) names) allow sp' spvar' force nofb)) = Some h).
-  { intros allow sp spvar force0 nofb.
+     Some (mk force sp' spvar')) = Some h).
+  { intros allow sp spvar force0 mk Hmk.
     destruct (negb (truthy sp) && negb (match allow with Some false => true | _ => false end)) eqn:Ec; [|auto].
-    destruct (implicit_provider w o st allow (k_required kw) force0 (filter (fun n : list char => negb (is_nil n)) names))
-      as [f [[s v]|]] eqn:Ei.
+    destruct (implicit_provider w o st allow (k_required kw) force0 ns) as [f [[s v]|]] eqn:Ei.
     - rewrite (ip_mono w o st st' _ _ Hm _ _ _ _ Ei). auto.
-    - intros H Ht. inversion H; subst. cbn [h_spname] in Ht.
+    - intros H Ht. inversion H; subst. rewrite Hmk in Ht.
       apply andb_true_iff in Ec. destruct Ec as [Ec _]. rewrite Ht in Ec. discriminate. }
+  pose (mk := fun al nofb (f : bool) (a b : option str) =>
+     mkHolder (map (ident (k_static kw)) ns) al a b f nofb
+       (match a with Some s => eff_dl o s (k_static kw) (k_deflib kw) | None => o_deflib o end)).
   destruct (k_fallback kw) as [l|].
   - destruct (is_some (k_allow kw)); [discriminate|].
     destruct l as [|s [|v [|x r]]]; try discriminate.
-    + apply (G (Some false) None None _ _).
-    + apply (G None (Some s) None _ _).
-    + apply (G None (Some s) (Some v) _ _).
-  - apply (G (k_allow kw) None None _ _).
+    + apply (G (Some false) None None _ (mk (Some false) _)). reflexivity.
+    + apply (G None (Some s) None _ (mk None _)). reflexivity.
+    + apply (G None (Some s) (Some v) _ (mk None _)). reflexivity.
+  - apply (G (k_allow kw) None None _ (mk (k_allow kw) _)). reflexivity.
 Qed.
 
 (* ---------------------------------------------------------------- the loop, repeated *)
@@ -415,7 +420,7 @@ Proof. unfold get_subproject_dep. destruct (get_subproject st s); [reflexivity|d
 Lemma first_sys_in w wanted : forall ns n v, first_sys w ns wanted = Some (n, v) -> In n ns.
 Proof.
   induction ns as [|a r IH]; intros n v; cbn; [discriminate|].
-  destruct (assoc a (w_sys w)) as [x|]; [destruct (sys_check wanted x)|]; try solve [intros H; right; eapply IH; eauto].
+  destruct (assoc (base a) (w_sys w)) as [x|]; [destruct (sys_check wanted x)|]; try solve [intros H; right; eapply IH; eauto].
   intros H; inversion H; subst. left; reflexivity.
 Qed.
 
@@ -480,9 +485,9 @@ Proof.
     destruct (h_force h) eqn:Ef; [discriminate|].
     unfold loop. rewrite Hfc, Hsp. destruct s as [|c s']; [discriminate|].
     rewrite Hg, Ef, (Hsys eq_refl). unfold sub_phase. rewrite Ef, E2. reflexivity. }
-  destruct (do_subproject w st s required) as [st'|] eqn:Ed; [|inversion H; congruence].
-  pose proof (do_subproject_covered _ _ _ _ _ Ed Hc) as Hc'.
-  destruct (dsp_spec _ _ _ _ _ Ed) as (Hcache & Hdis & Hmono).
+  destruct (do_subproject w st s required (h_dl h)) as [st'|] eqn:Ed; [|inversion H; congruence].
+  pose proof (do_subproject_covered _ _ _ _ _ _ Ed Hc) as Hc'.
+  destruct (dsp_spec _ _ _ _ _ _ Ed) as (Hcache & Hdis & Hmono).
   destruct (get_subproject_dep w h st' s (h_spvar h) wanted) as [d|] eqn:Eg.
   - destruct (gsd_vetted w h st' s (h_spvar h) wanted d Hc' Eg) as [Hv Hcompat].
     pose proof (gsd_some_found _ _ _ _ _ _ _ Eg) as Hfound.
@@ -596,8 +601,8 @@ Proof.
                  sub_phase w h wanted required s st = (r, st1) -> subs_rel h st st1).
   { intros s Hs Ht Hp. unfold sub_phase in Hp.
     destruct (negb (h_force h) && h_nofb h); [inversion Hp; subst; left; reflexivity|].
-    destruct (do_subproject w st s required) as [st'|] eqn:Ed; [|inversion Hp; subst; left; reflexivity].
-    destruct (dsp_spec _ _ _ _ _ Ed) as (_ & _ & Hm). right. rewrite Hs. split; [exact Ht|].
+    destruct (do_subproject w st s required (h_dl h)) as [st'|] eqn:Ed; [|inversion Hp; subst; left; reflexivity].
+    destruct (dsp_spec _ _ _ _ _ _ Ed) as (_ & _ & Hm). right. rewrite Hs. split; [exact Ht|].
     destruct (get_subproject_dep w h st' s (h_spvar h) wanted) as [d|].
     - pose proof (finA_subs _ _ _ _ _ _ Hp) as E. intros x Hx. unfold get_subproject in *. rewrite E. apply Hm. exact Hx.
     - inversion Hp; subst. exact Hm. }
@@ -666,10 +671,12 @@ Proof.
   cbn. destruct (check_version wanted v); reflexivity.
 Qed.
 
-Lemma first_sys_system w wanted : forall ns,
-  first_system w ns wanted = match first_sys w ns wanted with Some (n, v) => Some (Found KSystem v) | None => None end.
+Lemma first_sys_system w wanted sk : forall ns,
+  first_system w ns wanted =
+  match first_sys w (map (ident sk) ns) wanted with Some (n, v) => Some (Found KSystem v) | None => None end.
 Proof.
-  induction ns as [|n r IH]; [reflexivity|]. cbn [first_system first_sys]. unfold system_dep.
+  induction ns as [|n r IH]; [reflexivity|]. cbn [first_system first_sys map]. unfold system_dep.
+  change (base (ident sk n)) with n.
   destruct (assoc n (w_sys w)) as [v|]; [destruct (sys_check wanted v); [reflexivity|]|]; exact IH.
 Qed.
 
@@ -677,52 +684,54 @@ Lemma fst_sub_phase w h wanted required s st :
   cache_covered st ->
   fst (sub_phase w h wanted required s st) =
   if negb (h_force h) && h_nofb h then fail required
-  else use_subprojectN w st s (h_spvar h) (h_names h) wanted required.
+  else use_subprojectN w st s (h_spvar h) (h_names h) wanted required (h_dl h).
 Proof.
   intros Hc. unfold sub_phase, use_subprojectN. destruct (negb (h_force h) && h_nofb h); [reflexivity|].
-  destruct (do_subproject w st s required) as [st'|] eqn:Ed; [|reflexivity].
-  pose proof (do_subproject_covered _ _ _ _ _ Ed Hc) as Hc'.
+  destruct (do_subproject w st s required (h_dl h)) as [st'|] eqn:Ed; [|reflexivity].
+  pose proof (do_subproject_covered _ _ _ _ _ _ Ed Hc) as Hc'.
   destruct (get_subproject st' s) eqn:Eg.
   - rewrite (gsd_offerN w h st' s (h_spvar h) wanted Hc' Eg). apply fst_finA.
   - rewrite (gsd_notfound_none w h st' s (h_spvar h) wanted Eg). reflexivity.
 Qed.
 
 (* the closed form of the loop, read as the policy *)
-Lemma loop_policy_sub w h wanted required st c s' :
-  cache_covered st -> h_spname h = Some (c :: s') ->
+Lemma loop_policy_sub w h wanted required st c s' sk ns :
+  cache_covered st -> h_spname h = Some (c :: s') -> h_names h = map (ident sk) ns ->
   fst (loop w h wanted required st) =
   match first_override st (h_names h) with
   | Some d => vet wanted required d
   | None =>
       if get_subproject st (c :: s') then vet wanted required (var_offer w (c :: s') (h_spvar h) (h_names h))
-      else if h_force h then use_subprojectN w st (c :: s') (h_spvar h) (h_names h) wanted required
-      else match first_system w (h_names h) wanted with
+      else if h_force h then use_subprojectN w st (c :: s') (h_spvar h) (h_names h) wanted required (h_dl h)
+      else match first_system w ns wanted with
            | Some d => OFound d
            | None => if h_nofb h then fail required
-                     else use_subprojectN w st (c :: s') (h_spvar h) (h_names h) wanted required
+                     else use_subprojectN w st (c :: s') (h_spvar h) (h_names h) wanted required (h_dl h)
            end
   end.
 Proof.
-  intros Hc Hsp. unfold loop. rewrite (first_cached_over h st wanted Hc), first_over_override, Hsp.
+  intros Hc Hsp Hns. unfold loop. rewrite (first_cached_over h st wanted Hc), first_over_override, Hsp.
   destruct (first_override st (h_names h)) as [d|] eqn:Efo; cbn [option_map]; [apply fst_finA|].
   destruct (get_subproject st (c :: s')) eqn:Eg.
   - rewrite (gsd_offerN w h st (c :: s') (h_spvar h) wanted Hc Eg). unfold sub_offerN. rewrite Efo. apply fst_finA.
   - pose proof (fst_sub_phase w h wanted required (c :: s') st Hc) as Hsp2.
     destruct (h_force h) eqn:Ef; cbn [negb andb] in Hsp2; [exact Hsp2|].
-    rewrite first_sys_system. destruct (first_sys w (h_names h) wanted) as [[n v]|]; [reflexivity|exact Hsp2].
+    rewrite (first_sys_system w wanted sk ns), <- Hns.
+    destruct (first_sys w (h_names h) wanted) as [[n v]|]; [reflexivity|exact Hsp2].
 Qed.
 
-Lemma loop_policy_nosub w h wanted required st :
-  cache_covered st -> h_spname h = None -> h_names h <> [] ->
+Lemma loop_policy_nosub w h wanted required st sk ns :
+  cache_covered st -> h_spname h = None -> h_names h <> [] -> h_names h = map (ident sk) ns ->
   fst (loop w h wanted required st) =
   match first_override st (h_names h) with
   | Some d => vet wanted required d
-  | None => match first_system w (h_names h) wanted with Some d => OFound d | None => fail required end
+  | None => match first_system w ns wanted with Some d => OFound d | None => fail required end
   end.
 Proof.
-  intros Hc Hsp Hne. unfold loop. rewrite (first_cached_over h st wanted Hc), first_over_override, Hsp.
+  intros Hc Hsp Hne Hns. unfold loop. rewrite (first_cached_over h st wanted Hc), first_over_override, Hsp.
   destruct (first_override st (h_names h)) as [d|]; cbn [option_map]; [apply fst_finA|].
-  rewrite first_sys_system. destruct (first_sys w (h_names h) wanted) as [[n v]|]; [reflexivity|].
+  rewrite (first_sys_system w wanted sk ns), <- Hns.
+  destruct (first_sys w (h_names h) wanted) as [[n v]|]; [reflexivity|].
   destruct (h_names h); [congruence|reflexivity].
 Qed.
 
@@ -754,60 +763,63 @@ Proof.
   intros Hc Hf. rewrite lookup_pre. unfold pre, policyN, fallback_ofN, fallback_named in *.
   set (ns := filter (fun n : list char => negb (is_nil n)) names).
   destruct (negb (names_ok [] ns)); [reflexivity|].
-  destruct kw as [required wanted allow fb]. cbn [k_required k_version k_allow k_fallback] in *.
-  assert (Hnosub : forall al var force nofb,
-     fst (let h := mkHolder ns al None var force nofb in
+  destruct kw as [required wanted allow fb sk dlo]. cbn [k_required k_version k_allow k_fallback k_static k_deflib] in *.
+  set (ids := map (ident sk) ns).
+  assert (Hnosub : forall al var force nofb dl,
+     fst (let h := mkHolder ids al None var force nofb dl in
           if is_nil (candidates h) && required then (OErr, st)
           else try_cands w h wanted required (candidates h) st) =
-     match first_override st ns with
+     match first_override st ids with
      | Some d => vet wanted required d
      | None => match first_system w ns wanted with Some d => OFound d | None => fail required end
      end).
-  { intros al var force nofb. cbv zeta. destruct (nil_or_not ns) as [En|Hne].
-    - rewrite En. unfold candidates. cbn [h_names h_spname truthy map app negb]. rewrite orb_true_r. cbn. destruct required; reflexivity.
-    - rewrite cands_nonempty by exact Hne. cbn [andb]. rewrite loop_eq.
-      apply loop_policy_nosub; [exact Hc|reflexivity|exact Hne]. }
-  assert (Hsub : forall al c s' var force nofb,
-     fst (let h := mkHolder ns al (Some (c :: s')) var force nofb in
+  { intros al var force nofb dl. cbv zeta. destruct (nil_or_not ns) as [En|Hne].
+    - unfold ids. rewrite En. unfold candidates. cbn [h_names h_spname truthy map app negb]. rewrite orb_true_r. cbn.
+      destruct required; reflexivity.
+    - assert (Hne' : ids <> []) by (unfold ids; destruct ns; [congruence|discriminate]).
+      rewrite cands_nonempty by exact Hne'. cbn [andb]. rewrite loop_eq.
+      apply (loop_policy_nosub w (mkHolder ids al None var force nofb dl) wanted required st sk ns Hc eq_refl Hne' eq_refl). }
+  assert (Hsub : forall al c s' var force nofb dl,
+     fst (let h := mkHolder ids al (Some (c :: s')) var force nofb dl in
           if is_nil (candidates h) && required then (OErr, st)
           else try_cands w h wanted required (candidates h) st) =
-     match first_override st ns with
+     match first_override st ids with
      | Some d => vet wanted required d
      | None =>
-         if get_subproject st (c :: s') then vet wanted required (var_offer w (c :: s') var ns)
-         else if force then use_subprojectN w st (c :: s') var ns wanted required
+         if get_subproject st (c :: s') then vet wanted required (var_offer w (c :: s') var ids)
+         else if force then use_subprojectN w st (c :: s') var ids wanted required dl
          else match first_system w ns wanted with
               | Some d => OFound d
-              | None => if nofb then fail required else use_subprojectN w st (c :: s') var ns wanted required
+              | None => if nofb then fail required else use_subprojectN w st (c :: s') var ids wanted required dl
               end
      end).
-  { intros al c s' var force nofb. cbv zeta.
-    assert (E : is_nil (candidates (mkHolder ns al (Some (c :: s')) var force nofb)) = false).
+  { intros al c s' var force nofb dl. cbv zeta.
+    assert (E : is_nil (candidates (mkHolder ids al (Some (c :: s')) var force nofb dl)) = false).
     { unfold candidates. cbn [h_names h_spname truthy]. apply is_nil_app_r.
       intros X. apply app_eq_nil in X. destruct X as [X _]. discriminate. }
     rewrite E. cbn [andb]. rewrite loop_eq.
-    apply (loop_policy_sub w (mkHolder ns al (Some (c :: s')) var force nofb) wanted required st c s' Hc eq_refl). }
+    apply (loop_policy_sub w (mkHolder ids al (Some (c :: s')) var force nofb dl) wanted required st c s' sk ns Hc eq_refl eq_refl). }
   destruct fb as [l|].
   - destruct allow as [a|]; cbn [is_some]; [reflexivity|].
     destruct l as [|s [|v [|x r]]]; try reflexivity.
     + cbn [truthy negb andb]. cbv iota beta. apply Hnosub.
     + destruct s as [|c s']; [contradiction|]. cbn [truthy negb andb]. cbv iota beta.
-      rewrite Hsub. unfold forcedN. reflexivity.
+      fold ids. rewrite Hsub. unfold forcedN. reflexivity.
     + destruct s as [|c s']; [contradiction|]. cbn [truthy negb andb]. cbv iota beta.
-      rewrite Hsub. unfold forcedN. reflexivity.
+      fold ids. rewrite Hsub. unfold forcedN. reflexivity.
   - cbn [truthy negb andb]. rewrite orb_false_r.
     destruct allow as [[|]|]; cbn [negb].
     + rewrite ip_spec. destruct (provider_of w ns) as [[s var]|] eqn:Ep; cbv beta iota zeta; [|apply Hnosub].
       unfold forcedN. rewrite orb_true_r. cbn [orb]. cbv beta iota.
       destruct s as [|c s']; [exfalso; exact (provider_nonempty w _ _ Ep)|].
-      rewrite Hsub. reflexivity.
+      fold ids. rewrite Hsub. reflexivity.
     + cbv beta iota zeta. apply Hnosub.
     + rewrite ip_spec. destruct (provider_of w ns) as [[s var]|] eqn:Ep; cbv beta iota zeta; [|apply Hnosub].
       unfold forcedN. rewrite orb_false_r.
       destruct s as [|c s']; [exfalso; exact (provider_nonempty w _ _ Ep)|].
       destruct (is_forcefallback (o_wrap_mode o) || existsb (fun n : str => str_mem n (o_fff o)) ns
                 || str_mem (c :: s') (o_fff o) || required || get_subproject st (c :: s')); cbv beta iota.
-      * rewrite Hsub. reflexivity.
+      * fold ids. rewrite Hsub. reflexivity.
       * apply Hnosub.
 Qed.
 
@@ -842,7 +854,7 @@ Proof.
                  forall n, In n (h_names h) -> assoc n (s_over st1) <> None).
   { intros s Hp. unfold sub_phase in Hp.
     destruct (negb (h_force h) && h_nofb h); [destruct required; discriminate|].
-    destruct (do_subproject w st s required) as [st'|]; [|discriminate].
+    destruct (do_subproject w st s required (h_dl h)) as [st'|]; [|discriminate].
     destruct (get_subproject_dep w h st' s (h_spvar h) wanted) as [x|]; [eapply finA_found_all; eauto|].
     destruct required; discriminate. }
   destruct (h_spname h) as [[|c s']|].
@@ -855,17 +867,101 @@ Qed.
 
 Theorem found_names_all_overridden w o st names kw d st1 :
   lookup w o st names kw = (OFound d, st1) ->
-  forall n, In n names -> n <> [] -> assoc n (s_over st1) <> None.
+  forall n, In n names -> n <> [] -> assoc (ident (k_static kw) n) (s_over st1) <> None.
 Proof.
   intros H n Hin Hne. rewrite lookup_pre in H.
   destruct (pre w o st names kw) as [h|] eqn:Ep; [|discriminate].
   destruct (is_nil (candidates h) && k_required kw); [discriminate|].
   rewrite loop_eq in H. apply (loop_found_all _ _ _ _ _ _ _ H).
-  assert (Hn : h_names h = filter (fun x : list char => negb (is_nil x)) names).
+  assert (Hn : h_names h = map (ident (k_static kw)) (filter (fun x : list char => negb (is_nil x)) names)).
   { unfold pre in Ep.
     destruct (negb (names_ok [] (filter (fun n : list char => negb (is_nil n)) names))); [discriminate|].
     repeat match type of Ep with
            | context [match ?x with _ => _ end] => destruct x; try discriminate
            end; inversion Ep; reflexivity. }
-  rewrite Hn. apply filter_In. split; [exact Hin|]. destruct n; [congruence|reflexivity].
+  rewrite Hn. apply in_map. apply filter_In. split; [exact Hin|]. destruct n; [congruence|reflexivity].
+Qed.
+
+(* ================================================================== static: and default_library *)
+(* A fallback subproject that calls meson.override_dependency(n, d) without `static:` is
+   found by the dependency() call that configured it, whatever `static:` that call has and
+   whatever default_library is set globally, per subproject or in default_options: the
+   subproject is configured with the default_library that `static:` forces, so the override
+   is registered under the identifier the call looks up (mesonmain.py:355-395). *)
+Lemma assoc_app_other {A} k k' (l : list (str * A)) v :
+  str_eqb k k' = false -> assoc k (l ++ [(k', v)]) = assoc k l.
+Proof.
+  intros E. induction l as [|[a b] r IH]; cbn; [rewrite E; reflexivity|].
+  destruct (str_eqb k a); [reflexivity|exact IH].
+Qed.
+
+Lemma ident_neq a b n : tag a <> tag b -> str_eqb (ident a n) (ident b n) = false.
+Proof.
+  intros H. unfold ident. cbn [str_eqb]. destruct (N.eqb (tag a) (tag b)) eqn:E; [|reflexivity].
+  apply N.eqb_eq in E. congruence.
+Qed.
+
+Lemma override_dep_registers over n sk o s dlo d :
+  n <> [] ->
+  assoc (ident None n) over = None -> assoc (ident (Some true) n) over = None ->
+  assoc (ident (Some false) n) over = None ->
+  exists over', override_dep over n None (eff_dl o s sk dlo) d = Ok over' /\
+                assoc (ident sk n) over' = Some (d, true).
+Proof.
+  intros Hn H0 H1 H2. unfold override_dep. destruct n as [|c n']; [congruence|]. set (n := c :: n') in *.
+  unfold add_override at 1. cbn [ident]. fold (ident None n). rewrite H0.
+  set (o1 := over ++ [(ident None n, (d, true))]).
+  assert (A1 : assoc (ident (Some true) n) o1 = None).
+  { unfold o1. rewrite assoc_app_other; [exact H1|]. apply ident_neq. discriminate. }
+  assert (A2 : assoc (ident (Some false) n) o1 = None).
+  { unfold o1. rewrite assoc_app_other; [exact H2|]. apply ident_neq. discriminate. }
+  assert (A0 : assoc (ident None n) o1 = Some (d, true)) by (apply assoc_app_new; exact H0).
+  assert (Hadd : forall ov key, assoc key ov = None -> key <> [] ->
+             add_override ov key d true = Ok (ov ++ [(key, (d, true))])).
+  { intros ov key Hk Hne. unfold add_override. destruct key; [congruence|]. rewrite Hk. reflexivity. }
+  destruct sk as [[|]|]; cbn [eff_dl].
+  - (* static: true -> the subproject is static *)
+    rewrite (Hadd o1 _ A1) by discriminate. eexists; split; [reflexivity|]. apply assoc_app_new; exact A1.
+  - rewrite (Hadd o1 _ A2) by discriminate. eexists; split; [reflexivity|]. apply assoc_app_new; exact A2.
+  - destruct (match assoc s (o_subdl o) with Some x => x | None => match dlo with Some x => x | None => o_deflib o end end).
+    + rewrite (Hadd o1 _ A2) by discriminate. eexists; split; [reflexivity|].
+      rewrite assoc_app_other; [exact A0|]. apply ident_neq. discriminate.
+    + rewrite (Hadd o1 _ A1) by discriminate. eexists; split; [reflexivity|].
+      rewrite assoc_app_other; [exact A0|]. apply ident_neq. discriminate.
+    + rewrite (Hadd o1 _ A1) by discriminate.
+      assert (A2' : assoc (ident (Some false) n) (o1 ++ [(ident (Some true) n, (d, true))]) = None).
+      { rewrite assoc_app_other; [exact A2|]. apply ident_neq. discriminate. }
+      rewrite (Hadd _ _ A2') by discriminate. eexists; split; [reflexivity|].
+      rewrite assoc_app_other; [|apply ident_neq; discriminate].
+      rewrite assoc_app_other; [exact A0|]. apply ident_neq. discriminate.
+Qed.
+
+Theorem fallback_override_found w o st n kw s var sd k v :
+  reach w o st -> n <> [] -> bad_name n = false -> fallback_named kw ->
+  fallback_of w o st n kw = FbSub s var -> s <> [] ->           (* s is the fallback subproject *)
+  assoc s (s_subs st) = None ->                                 (* not configured yet *)
+  (forall sk, assoc (ident sk n) (s_over st) = None) ->         (* nobody has overridden n *)
+  (forced o n s = true \/                                       (* the lookup gets to the fallback *)
+   (system_dep w n (k_version kw) = None /\ is_nofallback (o_wrap_mode o) = false)) ->
+  assoc s (w_subs w) = Some sd -> sd_fails sd = false ->
+  sd_overrides sd = [(n, None, Found k v)] ->                   (* meson.override_dependency(n, d) *)
+  check_version (k_version kw) v = true ->
+  fst (lookup w o st [n] kw) = OFound (Found k v).
+Proof.
+  intros Hr Hn Hbad Hf Hfb Hsne Hs Hov Hreach Hsd Hfail Hovs Hv.
+  rewrite (lookup_follows_policy w o st n kw Hr Hn Hf). unfold policy.
+  rewrite Hbad, Hfb, (Hov (k_static kw)).
+  assert (Hg : get_subproject st s = false) by (unfold get_subproject; rewrite Hs; reflexivity).
+  rewrite Hg.
+  assert (Huse : use_subproject w st s var (k_static kw) n (k_version kw) (k_required kw)
+                   (eff_dl o s (k_static kw) (k_deflib kw)) = OFound (Found k v)).
+  { unfold use_subproject, do_subproject. destruct s as [|c s']; [congruence|]. set (s := c :: s') in *.
+    rewrite Hs, Hsd, Hfail, Hovs. cbn [add_overrides].
+    destruct (override_dep_registers (s_over st) n (k_static kw) o s (k_deflib kw) (Found k v) Hn
+                (Hov None) (Hov (Some true)) (Hov (Some false))) as (over' & E1 & E2).
+    rewrite E1. unfold get_subproject. cbn [s_subs]. rewrite (assoc_app_new s _ true Hs).
+    unfold sub_offer. cbn [s_over]. rewrite E2. cbn [vet]. rewrite Hv. reflexivity. }
+  destruct Hreach as [Hfo|[Hsys Hnf]].
+  - rewrite Hfo. exact Huse.
+  - destruct (forced o n s); [exact Huse|]. rewrite Hsys, Hnf. exact Huse.
 Qed.
